@@ -80,35 +80,36 @@ PROPS = {
     ),
      "C02": dict(
         prop_files=["PropC02.v"], components=["ws", "rs"],
-        level_text="Writer side: theorem C02_writer — for every option list the Writer accepts (modern frames), every split of the input into Write calls with Flush calls anywhere, every call succeeds, the Writer ends closed and the emitted bytes are accepted by the strict frame specification with exactly the input as content; C02_readfrom: a single ReadFrom emits the same frame. Reader side: the Reader model delivers exactly what the specification defines for every byte string it accepts (ReaderProofs.v: reader_complete / reader_read_eq_writeto, see evidence for which are closed), so the composition decodes to the input followed by a clean end of stream for Read with any buffer sizes and for WriteTo. The Writer, Reader models are validated on every run against the implementation over the option matrix (4 block sizes x block checksum x content checksum x size x 10 levels x concurrency 1/2/4 x legacy), inputs {0,1,13,bs-1,bs,bs+1,2bs,3bs+7}, random partitions with flushes, ReadFrom with five fragmentation patterns, and read back with both concurrency settings through Read (mixed buffer sizes) and WriteTo.",
+        level_text="Writer side: theorem C02_writer — for every option list the Writer accepts (modern frames), every split of the input into Write calls with Flush calls anywhere, every call succeeds, the Writer ends closed and the emitted bytes are accepted by the strict frame specification with exactly the input as content; C02_readfrom: a single ReadFrom emits the same frame. C02_roundtrip: those bytes are decoded by the Reader model, through WriteTo and through Read with ANY positive buffer size, to exactly the input followed by a clean end of stream (Reader closed, whole frame consumed). The Writer, Reader models are validated on every run against the implementation over the option matrix (4 block sizes x block checksum x content checksum x size x 10 levels x concurrency 1/2/4 x legacy), inputs {0,1,13,bs-1,bs,bs+1,2bs,3bs+7}, random partitions with flushes, ReadFrom with five fragmentation patterns, and read back with both concurrency settings through Read (mixed buffer sizes) and WriteTo.",
         level_note="Concurrency: the models are sequential; concurrent sessions are compared with the same model (their observable results are equal) and covered by C08's pipeline theorems. Legacy frames: validated by correspondence and round-trip oracles, not covered by the theorems. Trusted: as C01.",
         rule="ws: option matrix x inputs x partitions (48 sessions quick), zero-checksum inputs, ReadFrom of k*blocksize, all op sequences up to length 3 over 7 ops in both modes (798), random longer sequences, sink faults at every call; rs: valid frames x read patterns x fragmentation, every prefix, bit flips at every byte, splices, dependent-block frames from an independent encoder, hostile fields, source faults, all Reader op sequences up to length 3; non-trivial = session with >= 3 ops / input > 11 bytes",
-        modelled="writer.go, reader.go, lz4stream/{frame,block}.go, state.go, options.go as Writer.v / Reader.v / FrameImpl.v", strength="Writer side full (modern); Reader side as stated in evidence",
+        modelled="writer.go, reader.go, lz4stream/{frame,block}.go, state.go, options.go as Writer.v / Reader.v / FrameImpl.v", strength="full for the sequential models (modern frames)",
     ),
     "C05": dict(
-        prop_files=["PropC05.v"], components=['rs'],
-        level_text="PROVISIONAL: header-level theorems closed; the Reader theorems for this property are being integrated (see evidence for the theorem list of this run). The Reader model is validated against the implementation on every run and the frame specification is applied to the implementation's behaviour as an oracle.",
-        level_note="provisional", rule="rs / ws (see C02)", modelled="as C02", strength="provisional",
+        prop_files=["PropC05.v"], components=["rs"],
+        level_text="Theorems C05_sound / C05_complete / C05_read: for EVERY byte string whose first frame is not a legacy frame, whenever the Reader model (WriteTo, or Read with any buffer size) completes without error, the frame specification — an independent parser: header checksum, block-size code, every block within the declared maximum and decoding under the block-format specification, every declared block checksum, end mark, content checksum — accepts the same input with the same output and the same number of consumed bytes; and conversely. So a flipped bit, a substituted byte, an inserted / deleted / duplicated / reordered block is accepted only if the specification accepts the result. C05_header_exact: header acceptance is exact. C05_legacy_refuted keeps visible that the statement including legacy frames is false (kernel-trailer convention; legacy frames carry no integrity fields). On every run the extracted specification is applied to the IMPLEMENTATION's behaviour: every clean end of stream reported by the real Reader (2 700 single bit flips at every byte of small frames, splices, hostile fields, both concurrency settings, Read and WriteTo) must be accepted by the specification with identical output and consumed count.",
+        level_note="Checksum domain = decoded bytes (open finding F10, announced as KNOWN-FINDING); descriptor read non-strictly (the Reader does not validate version/reserved bits nor the declared content size). Concurrency: the model is sequential; concurrent reads are compared on delivered bytes and clean/erroneous end.",
+        rule="rs (see C02)", modelled="reader.go, lz4stream read side as Reader.v; FrameSpec.v is the specification", strength="full for modern frames (decoded checksum domain)",
     ),
     "C06": dict(
-        prop_files=["PropC06.v"], components=['rs'],
-        level_text="PROVISIONAL: header-level theorems closed; the Reader theorems for this property are being integrated (see evidence for the theorem list of this run). The Reader model is validated against the implementation on every run and the frame specification is applied to the implementation's behaviour as an oracle.",
-        level_note="provisional", rule="rs / ws (see C02)", modelled="as C02", strength="provisional",
+        prop_files=["PropC06.v"], components=["rs"],
+        level_text="Theorem C06_truncation: every frame a Writer session can emit (any accepted options, modern frames, any writes and flushes), cut at EVERY position 1 <= k < len, is read by the Reader model to an error that is neither nil nor io.EOF, after delivering a prefix of the content; C06_read extends it to Read with any buffer size. Validation on every run: every strict prefix of every small frame (about 2 300 prefixes), structural boundaries +-3 of large ones, both concurrency settings, Read and WriteTo, with the oracle 'a truncated frame never ends cleanly and delivers a prefix' evaluated on the implementation. Legacy frames: cuts that do not fall on a block boundary are covered by the correspondence and the oracle (legacy generator cases), not by the theorem.",
+        level_note="As C05.", rule="rs", modelled="as C05", strength="full for modern frames",
     ),
     "C07": dict(
-        prop_files=["PropC07.v"], components=['rs'],
-        level_text="PROVISIONAL: header-level theorems closed; the Reader theorems for this property are being integrated (see evidence for the theorem list of this run). The Reader model is validated against the implementation on every run and the frame specification is applied to the implementation's behaviour as an oracle.",
-        level_note="provisional", rule="rs / ws (see C02)", modelled="as C02", strength="provisional",
+        prop_files=["PropC07.v"], components=["rs"],
+        level_text="Theorems C07_total (on EVERY byte string every operation of the Reader model returns: fuel never runs out; the model has no panic; repeated legacy magics are consumed by a loop), C07_badmagic (a non-magic first word is an invalid frame), C07_skippable (exactly the sixteen magics skip exactly the announced bytes), C07_bounded_blocks (no accepted block exceeds the declared maximum). What no model can exhibit — stack depth, heap growth, goroutines — is observed: hostile streams (block sizes up to 2^31-1, skippable lengths up to 2^32-1, every magic around the reserved range, 200 000 repeated legacy magics) run in a worker process with a 32 MiB stack limit and a watchdog, under both concurrency settings; heap growth beyond 64 MiB, a process death, a hang or a leftover goroutine is a violation.",
+        level_note="Partial by nature for stack/heap/goroutines (observed, not proved).", rule="rs", modelled="as C05", strength="logic full; runtime residue observed",
     ),
     "C16": dict(
-        prop_files=["PropC16.v"], components=['rs', 'dec'],
-        level_text="PROVISIONAL: header-level theorems closed; the Reader theorems for this property are being integrated (see evidence for the theorem list of this run). The Reader model is validated against the implementation on every run and the frame specification is applied to the implementation's behaviour as an oracle.",
-        level_note="provisional", rule="rs / ws (see C02)", modelled="as C02", strength="provisional",
+        prop_files=["PropC16.v"], components=["rs", "dec"],
+        level_text="Theorems C16_dependent_frames / C16_read: the frame specification decodes each block of a dependent-block frame against the last 64 KiB of all previous output; for every input it accepts (any block sizes, matches reaching up to 65535 bytes back across any number of blocks, raw and compressed blocks mixed, with or without checksums) the Reader model delivers exactly the specification's content through WriteTo and through Read with every buffer size (its trimmed 128 KiB dictionary and the specification's window decode identically). Validation on every run: dependent-block frames built by an independent encoder in the harness (1..5 and 60 blocks, offsets exactly as far back as allowed, raw blocks mixed in), read with every buffer-size class and both concurrency settings.",
+        level_note="Concurrency silently falls back to sequential decoding for dependent frames (observed through the harness).", rule="rs: dependent-blocks, dependent-blocks-long; dec: dictionary classes", modelled="as C05", strength="full",
     ),
     "C17": dict(
-        prop_files=["PropC17.v"], components=['ws', 'rs'],
-        level_text="PROVISIONAL: header-level theorems closed; the Reader theorems for this property are being integrated (see evidence for the theorem list of this run). The Reader model is validated against the implementation on every run and the frame specification is applied to the implementation's behaviour as an oracle.",
-        level_note="provisional", rule="rs / ws (see C02)", modelled="as C02", strength="provisional",
+        prop_files=["PropC17.v"], components=["ws", "rs"],
+        level_text="Writer: theorems C17_writer_results / _state (for EVERY sequence of Apply, Write, ReadFrom, Flush, Close, Reset — misuse included — every call's result equals the four-phase reference machine's), C17_writer_output (whenever an epoch has been closed the sink is a frame of the strict specification holding exactly the data accepted in that epoch), C17_writer_quiet (after Close or a failure only Reset changes the sink: further writes fail without output, a second Close emits nothing), C17_writer_reset (Reset makes the object indistinguishable from a new one with the same options, for every continuation), C17_writer_flush (after Flush the sink is a decodable prefix of everything written). Reader: C17_reader_ended / _ended_read (after the end Read keeps returning io.EOF and WriteTo (0,nil) without consuming), C17_reader_reset, C17_reader_total. Validation on every run: ALL sequences up to length 3 over 7 Writer operations in sequential and concurrent mode (798), 150 random longer ones, ALL sequences up to length 3 over 7 Reader operations (399), each call's result and the sink / consumed count compared with the models; hangs and crashes by watchdog.",
+        level_note="The reference machine treats API misuse (Apply after writing, ReadFrom after Write) as a failure of the object, as the code does.", rule="ws: lifecycle, lifecycle-random; rs: lifecycle", modelled="state.go, writer.go, reader.go", strength="full (sequential objects)",
     ),
     "C08": dict(
         prop_files=["PropC08.v"], components=["pipe", "piper", "ws"],
@@ -130,8 +131,8 @@ PROPS = {
     ),
     "C15": dict(
         prop_files=["PropC15.v"], components=["ws", "rs"],
-        level_text="Theorem C15_sink_fault: for EVERY k, the underlying writer failing from its k-th call on, in every well-formed session: what reached the sink is a prefix of the fault-free output and some call returns the failure, Close at the latest. Reader side (source failing at its k-th call; fragmentation irrelevance) in ReaderProofs.v as listed in the evidence. Validation: sink faults at every call index of sessions (sequential compared with the model; concurrent by oracles), source faults at every call index, five fragmentation patterns (single bytes, zero-length reads, data with io.EOF, 7-byte reads).",
-        level_note="The sink model fails permanently from call k; a transient failure followed by success is outside the theorem (after a failed Flush the pending block is re-emitted).", rule="ws, rs", modelled="as C02", strength="Writer side full; Reader side per evidence",
+        level_text="Theorem C15_sink_fault: for EVERY k, the underlying writer failing from its k-th call on, in every well-formed session: what reached the sink is a prefix of the fault-free output and some call returns the failure, Close at the latest. C15_source_fault: the underlying reader failing at its k-th call, for every k and every input: the delivered bytes are a prefix of the fault-free output and the result is the injected error, never a clean end, unless the stream had been read completely. Fragmentation: the model reads through io.ReadFull semantics only; the five fragmentation patterns are validated against the implementation. Validation: sink faults at every call index of sessions (sequential compared with the model; concurrent by oracles), source faults at every call index, five fragmentation patterns (single bytes, zero-length reads, data with io.EOF, 7-byte reads).",
+        level_note="The sink model fails permanently from call k; a transient failure followed by success is outside the theorem (after a failed Flush the pending block is re-emitted).", rule="ws, rs", modelled="as C02", strength="full for the models; fragmentation by validation",
     ),
     "C18": dict(
         prop_files=["PropC18.v"], components=["cr"],
